@@ -140,6 +140,14 @@ CHECKS.update({
    ref="DESIGN.md §4 C05"),
 })
 
+CHECKS.update({
+ "C19": dict(
+   technique="property-based testing (proptest): reference resolver written from Maven's documented rules over generated POM universes served in memory; Display/parse round-trip laws",
+   text="Generated-input exploration: acyclic POM universes inside the supported subset (libraries in several versions, parent chains, BOM imports, managed versions/scopes/optional flags, all scopes, classifier and test-jar variants, several repositories serving subsets) are rendered to POM XML, served by an in-memory Downloader and resolved by get_maven_dependencies; the full result list (coordinate, scope, repository, breadth-first order) must equal a reference resolver written from Maven's dependency-mechanism documentation; every result and generated coordinates must survive printing and re-parsing. Holds on everything explored.",
+   note="Trusted: harness reference resolver (effective POM, scope table, nearest-wins mediation), XML renderer. Real Maven cannot run offline. Supported subset only; a child neither re-declares nor manages a dependency its parent chain declares.",
+   ref="DESIGN.md §4 C19"),
+})
+
 NOT_YET = {
 }
 
